@@ -1580,4 +1580,175 @@ example : Clean [0, 56, 34, 92, 8232] := by
   refine ⟨?_, by decide⟩
   intro c hc; simp at hc; omega
 
+/-! ## G. the JSON codec (`Resource::new`) is immune to both data defects
+
+`JsonSerdeCodec::encode` never prints a raw NUL, and a `<` only inside a string token, where
+the `<` that the data site substitutes is itself a valid JSON escape for `<`. -/
+
+theorem replaceLt_append (a b : Str) : replaceLt (a ++ b) = replaceLt a ++ replaceLt b := by
+  induction a with
+  | nil => rfl
+  | cons c cs ih =>
+    simp only [List.cons_append, replaceLt]
+    split <;> simp [ih]
+
+theorem replaceLt_of_NoLt (a : Str) (h : NoLt a) : replaceLt a = a := by
+  induction a with
+  | nil => rfl
+  | cons c cs ih =>
+    have hc : c ≠ 60 := h c (by simp)
+    simp [replaceLt, hc, ih (fun x hx => h x (by simp [hx]))]
+
+theorem jsonStrBody_skip (l T : Str) : jsonStrBody l.length (l ++ T) = jsonStrBody 0 T := by
+  induction l with
+  | nil => rfl
+  | cons c cs ih => simpa [jsonStrBody] using ih
+
+theorem jsonStrBody_backslash (X : Str) :
+    jsonStrBody 0 (92 :: X) =
+      match jsonEscape X with
+      | none => none
+      | some (out, k) =>
+        match jsonStrBody k X with
+        | some (s, r) => some (out ++ s, r)
+        | none => none := by
+  simp only [jsonStrBody, show (92 : Nat) ≠ 34 by decide, show ¬ ((92 : Nat) < 32) by decide,
+    if_false, if_true]
+  rfl
+
+theorem hex4_ctrl (c : Nat) (hc : c < 32) (T : Str) :
+    hex4 (48 :: 48 :: hexLo (c / 16) :: hexLo (c % 16) :: T) = some c := by
+  have h1 := hexVal_hexLo (c / 16) (by omega)
+  have h2 := hexVal_hexLo (c % 16) (by omega)
+  have h0 : hexVal 48 = some 0 := by decide
+  simp only [hex4, h0, h1, h2]
+  congr 1; omega
+
+/-- one escaped character followed by the rest is decoded to that character -/
+theorem jsonStrBody_escChar (c : Nat) (T : Str) (cs r : Str) (hT : jsonStrBody 0 T = some (cs, r)) :
+    jsonStrBody 0 (replaceLt (jsonEscChar c) ++ T) = some (c :: cs, r) := by
+  unfold jsonEscChar
+  split
+  · next h => subst h; simp [replaceLt, jsonStrBody, jsonEscape, hT]
+  · split
+    · next h => subst h; simp [replaceLt, jsonStrBody, jsonEscape, hT]
+    · split
+      · next h => subst h; simp [replaceLt, jsonStrBody, jsonEscape, hT]
+      · split
+        · next h => subst h; simp [replaceLt, jsonStrBody, jsonEscape, hT]
+        · split
+          · next h => subst h; simp [replaceLt, jsonStrBody, jsonEscape, hT]
+          · split
+            · next h => subst h; simp [replaceLt, jsonStrBody, jsonEscape, hT]
+            · split
+              · next h => subst h; simp [replaceLt, jsonStrBody, jsonEscape, hT]
+              · next h34 h92 h8 h9 h10 h12 h13 =>
+                split
+                · next hlt =>
+                  -- `\u00XX`
+                  have hno : NoLt [92, 117, 48, 48, hexLo (c / 16), hexLo (c % 16)] := by
+                    intro x hx
+                    simp only [List.mem_cons, List.not_mem_nil, or_false] at hx
+                    rcases hx with hx | hx | hx | hx | hx | hx
+                    · omega
+                    · omega
+                    · omega
+                    · omega
+                    · exact hx ▸ hexLo_ne_lt _ (by omega)
+                    · exact hx ▸ hexLo_ne_lt _ (by omega)
+                  rw [replaceLt_of_NoLt _ hno]
+                  have hsk := jsonStrBody_skip [117, 48, 48, hexLo (c / 16), hexLo (c % 16)] T
+                  simp only [List.length_cons, List.length_nil, List.cons_append, List.nil_append] at hsk
+                  simp only [List.cons_append, List.nil_append, jsonStrBody_backslash, jsonEscape,
+                    show (117 : Nat) ≠ 34 ∧ (117 : Nat) ≠ 92 ∧ (117 : Nat) ≠ 47 by decide]
+                  simp [hex4_ctrl c hlt T, hsk, hT]
+                · next hge =>
+                  by_cases h60 : c = 60
+                  · subst h60
+                    have hsk := jsonStrBody_skip [117, 48, 48, 51, 99] T
+                    simp only [List.length_cons, List.length_nil, List.cons_append, List.nil_append] at hsk
+                    simp only [replaceLt, kLtEsc, if_true, List.cons_append, List.nil_append,
+                      List.append_nil, jsonStrBody_backslash, jsonEscape]
+                    simp [hex4, hexVal, hsk, hT]
+                  · have : ¬ c < 32 := hge
+                    simp [replaceLt, h60, jsonStrBody, h34, h92, this, hT]
+
+theorem jsonStrBody_encBody (s r : Str) :
+    jsonStrBody 0 (replaceLt (jsonEncBody s) ++ 34 :: r) = some (s, r) := by
+  induction s with
+  | nil => simp [jsonEncBody, replaceLt, jsonStrBody]
+  | cons c cs ih =>
+    simp only [jsonEncBody, replaceLt_append, List.append_assoc]
+    exact jsonStrBody_escChar c _ cs r ih
+
+/-- the JSON layer alone: whatever the data site's `<` replacement does to the JSON text of a string
+value, `serde_json` decodes the original string — for **every** string, no hypothesis -/
+theorem C12_json_survives_replace (s : Str) (hs : Scalar s) :
+    jsonStrDecode (replaceLt (jsonStrEncode s)) = some s := by
+  have h := jsonStrBody_encBody s []
+  have : replaceLt (jsonStrEncode s) = 34 :: (replaceLt (jsonEncBody s) ++ [34]) := by
+    simp [jsonStrEncode, replaceLt, replaceLt_append]
+  rw [this]
+  simp [jsonStrDecode, h, joinSurr_scalar s hs]
+
+theorem jsonEscChar_props (c : Nat) (hc : c < 1114112 ∧ ¬ (55296 ≤ c ∧ c ≤ 57343)) :
+    ∀ x ∈ jsonEscChar c, x ≠ 0 ∧ x < 1114112 ∧ ¬ (55296 ≤ x ∧ x ≤ 57343) := by
+  have hl : ∀ d, d < 16 → hexLo d ≠ 0 ∧ hexLo d < 128 := by decide
+  unfold jsonEscChar
+  repeat' split
+  all_goals (intro x hx; simp only [List.mem_cons, List.not_mem_nil, or_false] at hx)
+  all_goals first
+    | (rcases hx with hx | hx <;> subst hx <;> omega)
+    | (rcases hx with hx | hx | hx | hx | hx | hx
+       · subst hx; omega
+       · subst hx; omega
+       · subst hx; omega
+       · subst hx; omega
+       · have := hl (c / 16) (by omega); subst hx; omega
+       · have := hl (c % 16) (by omega); subst hx; omega)
+    | (subst hx; omega)
+
+theorem jsonStrEncode_props (s : Str) (hs : Scalar s) :
+    ∀ x ∈ jsonStrEncode s, x ≠ 0 ∧ x < 1114112 ∧ ¬ (55296 ≤ x ∧ x ≤ 57343) := by
+  have hb : ∀ x ∈ jsonEncBody s, x ≠ 0 ∧ x < 1114112 ∧ ¬ (55296 ≤ x ∧ x ≤ 57343) := by
+    induction s with
+    | nil => intro x hx; simp [jsonEncBody] at hx
+    | cons c cs ih =>
+      intro x hx
+      simp only [jsonEncBody] at hx
+      rcases List.mem_append.mp hx with h | h
+      · exact jsonEscChar_props c (hs c (by simp)) x h
+      · exact ih (scalar_tail hs) x h
+  intro x hx
+  simp only [jsonStrEncode, List.mem_cons, List.mem_append, List.not_mem_nil, or_false] at hx
+  rcases hx with hx | hx | hx
+  · subst hx; omega
+  · exact hb x hx
+  · subst hx; omega
+
+theorem nulOct_of_noZero (s : Str) (h : ∀ x ∈ s, x ≠ 0) : nulOct s = false := by
+  induction s with
+  | nil => rfl
+  | cons c cs ih =>
+    have hc : c ≠ 0 := h c (by simp)
+    have : (c == 0) = false := by simpa using hc
+    simp [nulOct, this, ih (fun x hx => h x (by simp [hx]))]
+
+/-- **JSON string values: full round trip, no hypothesis** — server `JsonSerdeCodec::encode`, the
+data site (`<` replacement, `{:?}`), the browser's string literal, client `JsonSerdeCodec::decode`:
+the client obtains exactly the string the server had, for every string and every
+instantiation of the Unicode tables -/
+theorem C12_json_string_roundtrip (p g : Nat → Bool) (site : Site) (hsite : siteReplacesLt site = true)
+    (s : Str) (hs : Scalar s) :
+    (jsDecodeStringLiteral (emitLit p g site (jsonStrEncode s))).bind jsonStrDecode = some s := by
+  have hp := jsonStrEncode_props s hs
+  have h1 : Scalar (jsonStrEncode s) := fun x hx => (hp x hx).2
+  have h2 : nulOct (jsonStrEncode s) = false := nulOct_of_noZero _ (fun x hx => (hp x hx).1)
+  rw [C12_data_reads_replaced p g site hsite _ h1 h2]
+  exact C12_json_survives_replace s hs
+
+example : (jsDecodeStringLiteral (emitLit asciiPrintable noExtend .asyncData
+    (jsonStrEncode [0, 49, 60, 47, 115, 34, 92, 8232]))).bind jsonStrDecode
+    = some [0, 49, 60, 47, 115, 34, 92, 8232] := by decide
+
 end Leptos.Transfer
